@@ -12,6 +12,12 @@
 //!                 g = TLS, certificate of our CA with role "operator", v = same CA, role "viewer",
 //!                 b = TLS, certificate of another authority, l = TLS, certificate without a role
 //!              X<k>  the peer of connection k closes
+//!              W<k>  (tlsauthz, TLS peers) peer k pipelines read-coils requests, which the authorization handler denies
+//!                    (the session answers each with its own exception reply), and stops reading: the session
+//!                    blocks writing an exception reply. No field is printed for this op. From then on connection k
+//!                    cannot be probed with a request: it counts as served (with the role seen before) as long as
+//!                    its `openssl s_client` process lives - the process ends when the server closes the connection.
+//!                    The whole line is NOFLOOD if the blocked state was not reached.
 //!              S     ServerHandle::shutdown      H  drop the ServerHandle
 //!   connection numbers = order of the C ops (every C op counts, whatever happens to it)
 //! after every op EVERY connection that can talk is probed with a read of holding register <k> through
@@ -52,12 +58,19 @@ struct Proc {
     stdin: Option<std::process::ChildStdin>,
     out: Arc<Mutex<Vec<u8>>>,
     eof: Arc<AtomicUsize>,
+    paused: Arc<std::sync::atomic::AtomicBool>, // W: nobody reads the process's stdout any more
+    flooded: bool,
+    last_item: String,
 }
 
-fn pump<R: Read + Send + 'static>(mut r: R, sink: Option<Arc<Mutex<Vec<u8>>>>, eof: Arc<AtomicUsize>) {
+fn pump<R: Read + Send + 'static>(mut r: R, sink: Option<Arc<Mutex<Vec<u8>>>>, eof: Arc<AtomicUsize>, paused: Arc<std::sync::atomic::AtomicBool>) {
     std::thread::spawn(move || {
         let mut buf = [0u8; 4096];
         loop {
+            if paused.load(Ordering::SeqCst) {
+                std::thread::sleep(Duration::from_millis(20));
+                continue;
+            }
             match r.read(&mut buf) {
                 Ok(0) | Err(_) => break,
                 Ok(n) => {
@@ -85,7 +98,9 @@ fn contains(hay: &[u8], needle: &[u8]) -> bool {
 fn connect_from(src: Ipv4Addr, addr: SocketAddr) -> Option<std::net::TcpStream> {
     // std has no bind-before-connect: use libc through socket2-free plain calls
     unsafe {
-        let fd = libc::socket(libc::AF_INET, libc::SOCK_STREAM, 0);
+        // close-on-exec: an `openssl s_client` child spawned later must not inherit this socket (the connection would
+        // stay open after the harness closed it, until that child exits)
+        let fd = libc::socket(libc::AF_INET, libc::SOCK_STREAM | libc::SOCK_CLOEXEC, 0);
         if fd < 0 {
             return None;
         }
@@ -209,14 +224,20 @@ fn scenario(rt: &tokio::runtime::Runtime, line: &str, certs: &str, openssl: &str
                         };
                         let mut cmd = Command::new(openssl);
                         cmd.args(["s_client", "-connect", &addr.to_string(), "-bind", &format!("{source}:0"), "-cert", cert.to_str().unwrap(), "-key", key.to_str().unwrap(), "-CAfile", ca2.join("ca_cert.pem").to_str().unwrap(), "-quiet"]);
-                        match cmd.stdin(Stdio::piped()).stdout(Stdio::piped()).stderr(Stdio::piped()).spawn() {
+                        match cmd.stdin(Stdio::piped()).stdout(Stdio::piped()).stderr(if std::env::var("FRONT_DEBUG").is_ok() { Stdio::inherit() } else { Stdio::piped() }).spawn() {
                             Ok(mut child) => {
                                 let outbuf = Arc::new(Mutex::new(Vec::new()));
                                 let eof = Arc::new(AtomicUsize::new(0));
-                                pump(child.stdout.take().unwrap(), Some(outbuf.clone()), eof.clone());
-                                pump(child.stderr.take().unwrap(), None, eof.clone());
+                                let paused = Arc::new(std::sync::atomic::AtomicBool::new(false));
+                                pump(child.stdout.take().unwrap(), Some(outbuf.clone()), eof.clone(), paused.clone());
+                                match child.stderr.take() {
+                                    Some(e) => pump(e, None, eof.clone(), Arc::new(std::sync::atomic::AtomicBool::new(false))),
+                                    None => {
+                                        eof.fetch_add(1, Ordering::SeqCst);
+                                    }
+                                }
                                 let stdin = child.stdin.take();
-                                conns.push(Conn::Tls(Proc { child, stdin, out: outbuf, eof }));
+                                conns.push(Conn::Tls(Proc { child, stdin, out: outbuf, eof, paused, flooded: false, last_item: String::new() }));
                             }
                             Err(_) => return "NOOPENSSL".to_string(),
                         }
@@ -238,6 +259,57 @@ fn scenario(rt: &tokio::runtime::Runtime, line: &str, certs: &str, openssl: &str
                     }
                 }
             }
+            "W" => {
+                let k: usize = rest.parse().unwrap_or(usize::MAX);
+                if let Some(Conn::Tls(p)) = conns.get_mut(k) {
+                    if let Some(mut stdin) = p.stdin.take().filter(|_| !p.flooded && transport == "tlsauthz") {
+                        p.paused.store(true, Ordering::SeqCst);
+                        // openssl 3.5 s_client ends the connection when one read of its stdin fills its whole 16 KiB
+                        // buffer: a one-page pipe keeps every read below that
+                        unsafe {
+                            use std::os::fd::AsRawFd;
+                            libc::fcntl(stdin.as_raw_fd(), libc::F_SETPIPE_SZ, 4096);
+                        }
+                        // read 8 coils at 0, unit 1: denied by the authorization handler (only holding registers are allowed)
+                        let one = [0u8, 1, 0, 0, 0, 6, 1, 1, 0, 0, 0, 8];
+                        let chunk: Vec<u8> = one.iter().cycle().take(12 * 1000).copied().collect();
+                        let progress = Arc::new(Mutex::new((Instant::now(), true)));
+                        let pr = progress.clone();
+                        // the writer keeps offering requests for as long as the process takes them
+                        std::thread::spawn(move || loop {
+                            let ok = stdin.write_all(&chunk).is_ok();
+                            *pr.lock().unwrap() = (Instant::now(), ok);
+                            if !ok {
+                                break;
+                            }
+                        });
+                        let start = Instant::now();
+                        let mut blocked = false;
+                        while start.elapsed() < Duration::from_secs(30) {
+                            std::thread::sleep(Duration::from_millis(50));
+                            let (t, ok) = *progress.lock().unwrap();
+                            if !ok {
+                                break;
+                            }
+                            if t.elapsed() >= Duration::from_millis(500) {
+                                blocked = true;
+                                break;
+                            }
+                        }
+                        if !blocked {
+                            for c in conns.iter_mut() {
+                                if let Conn::Tls(p) = c {
+                                    let _ = p.child.kill();
+                                    let _ = p.child.wait();
+                                }
+                            }
+                            return "NOFLOOD".to_string();
+                        }
+                        p.flooded = true;
+                    }
+                }
+                continue;
+            }
             "S" => {
                 if let Some(h) = handle.as_ref() {
                     let _ = rt.block_on(h.shutdown());
@@ -255,6 +327,7 @@ fn scenario(rt: &tokio::runtime::Runtime, line: &str, certs: &str, openssl: &str
         for (k, c) in conns.iter_mut().enumerate() {
             tx = tx.wrapping_add(1);
             let ok = match c {
+                Conn::Tls(p) if p.flooded => matches!(p.child.try_wait(), Ok(None)),
                 Conn::Tls(p) => {
                     let mut ok = false;
                     if let Some(stdin) = p.stdin.as_mut() {
@@ -297,20 +370,25 @@ fn scenario(rt: &tokio::runtime::Runtime, line: &str, certs: &str, openssl: &str
             served.push(ok);
         }
         let roles = seen.lock().unwrap().clone();
-        let items: Vec<String> = served
-            .iter()
-            .enumerate()
-            .map(|(k, s)| {
-                if !*s {
-                    "-".to_string()
-                } else {
-                    match roles.iter().find(|(a, _)| *a as usize == k) {
-                        Some((_, r)) => format!("S:{r}"),
-                        None => "S".to_string(),
-                    }
+        let mut items: Vec<String> = Vec::new();
+        for (k, s) in served.iter().enumerate() {
+            let item = if !*s {
+                "-".to_string()
+            } else if let Some(Conn::Tls(p)) = conns.get(k).filter(|c| matches!(c, Conn::Tls(p) if p.flooded)) {
+                p.last_item.clone()
+            } else {
+                match roles.iter().find(|(a, _)| *a as usize == k) {
+                    Some((_, r)) => format!("S:{r}"),
+                    None => "S".to_string(),
                 }
-            })
-            .collect();
+            };
+            if let Some(Conn::Tls(p)) = conns.get_mut(k) {
+                if !p.flooded {
+                    p.last_item = item.clone();
+                }
+            }
+            items.push(item);
+        }
         out.push(items.join(","));
     }
     for c in conns.iter_mut() {
@@ -332,6 +410,9 @@ pub fn main(args: &[String]) -> i32 {
         libc::dup2(2, 1);
         std::fs::File::from_raw_fd(saved)
     };
+    if std::env::var("FRONT_DEBUG").is_ok() {
+        let _ = tracing_subscriber::fmt().with_max_level(tracing::Level::INFO).with_writer(std::io::stderr).try_init();
+    }
     let certs = args.first().cloned().unwrap_or_default();
     let openssl = args.get(1).cloned().unwrap_or_else(|| "/root/miniconda/bin/openssl".to_string());
     let lines: Vec<String> = crate::util::stdin_lines().collect();
